@@ -68,6 +68,23 @@ OWNED = {'Dddmp_cuddBddLoad'}
 # may create nodes, but the result is a projection function, which the manager references itself
 PERMANENT = {'Cudd_bddIthVar'}
 RECURSIVE_DEREFS = {'Cudd_RecursiveDeref', 'Cudd_RecursiveDerefZdd', 'Cudd_IterDerefBdd'}
+# CUDD's non-recursive dereference: decrements the count and nothing else (the node is not declared
+# dead, its children keep their references) -- only for a node that is handed on alive
+PLAIN_DEREFS = {'Cudd_Deref', 'cuddDeref'}
+# which dereference functions belong to which back end (the wrappers' own methods aside), and
+# which of them a handle must use to give its reference back for good
+ALLOWED_DEREFS = {
+    'cudd': {'Cudd_RecursiveDeref', 'Cudd_IterDerefBdd', 'Cudd_Deref', 'cuddDeref', '_decref', 'decref'},
+    'cuddZdd': {'Cudd_RecursiveDerefZdd', 'Cudd_Deref', 'cuddDeref', '_decref', 'decref'},
+    'sylvan': {'sylvan_deref', 'decref'},
+    'buddy': {'bdd_delref', 'decref'},
+}
+DISPOSAL_DEREFS = {
+    'cudd': {'Cudd_RecursiveDeref', 'Cudd_IterDerefBdd'},
+    'cuddZdd': {'Cudd_RecursiveDerefZdd'},
+    'sylvan': {'sylvan_deref'},
+    'buddy': {'bdd_delref'},
+}
 # calls whose result is a handle of a node that the manager references for ever (projection functions)
 PERMANENT_HANDLE_CALLS = {'self.var'}
 ALLOCS = {'PyMem_Malloc'}
@@ -192,7 +209,7 @@ def run_path(events, returns_node, local, float_check, final=None):
 
     def node(x, kind, held=0, exposed=False, made_from=(), from_cont=None):
         return dict(kind=kind, held=held, refs=0, derefs=0, wraps=0, null=False, exposed=exposed,
-                    made_from=tuple(made_from), in_cont=0, from_cont=from_cont)
+                    made_from=tuple(made_from), in_cont=0, from_cont=from_cont, plain_dropped=False)
 
     def protected(n):
         return (n['kind'] in ('borrowed', 'permanent') or n['held'] > 0 or n['wraps'] > 0 or n['null']
@@ -247,6 +264,7 @@ def run_path(events, returns_node, local, float_check, final=None):
                     return (k, 'unprotected node used after a node-creating call or a recursive dereference')
                 n['held'] += 1
                 n['refs'] += 1
+                n['plain_dropped'] = False
             elif t == 'deref':
                 if ev[2] not in DEREFS:
                     return (k, f'not a dereference function: {ev[2]}')
@@ -254,15 +272,19 @@ def run_path(events, returns_node, local, float_check, final=None):
                     return (k, 'deref without a reference to give back')
                 n['held'] -= 1
                 n['derefs'] += 1
+                if ev[2] in PLAIN_DEREFS and n['held'] <= 0 and n['wraps'] == 0 and n['in_cont'] == 0:
+                    n['plain_dropped'] = True
                 if float_check and ev[2] in RECURSIVE_DEREFS:
-                    # frees what only this node kept alive: a fresh unprotected result may be among it
+                    # frees the node itself when nothing else holds it, and what only this node kept
+                    # alive: a fresh unprotected result may be among it
                     for y, m in st.items():
-                        if not (protected(m) or y == ev[1] or ev[1] in m['made_from']):
+                        if not (protected(m) or ev[1] in m['made_from']):
                             m['exposed'] = True
             else:
                 if t == 'wrap' and float_check and n['exposed']:
                     return (k, 'unprotected node used after a node-creating call or a recursive dereference')
                 n['wraps'] += 1
+                n['plain_dropped'] = False
         elif t == 'isNull':
             n = st.get(ev[1])
             if n is not None:
@@ -279,6 +301,7 @@ def run_path(events, returns_node, local, float_check, final=None):
                 return (k, 'return of an untracked node')
             if float_check and n['exposed']:
                 return (k, 'unprotected node used after a node-creating call or a recursive dereference')
+            n['plain_dropped'] = False      # handed to the caller alive
             return end(k)
         elif t in ('retHandle', 'retNull', 'raise', 'raiseIn'):
             return end(k)
@@ -300,6 +323,7 @@ def run_path(events, returns_node, local, float_check, final=None):
                 return (k, 'container used after it was freed')
             if float_check and n['exposed']:
                 return (k, 'unprotected node used after a node-creating call or a recursive dereference')
+            n['plain_dropped'] = False
             if n['held'] > 0:
                 n['held'] -= 1
                 n['in_cont'] += 1
@@ -433,6 +457,38 @@ def node_descr(events, x):
         if e[0] == 'load' and e[1] == x:
             return 'load'
     return '?'
+
+
+PLAIN_DROP = ('a node was released with a non-recursive dereference and then dropped: it and the references '
+              'it holds on its children are never reclaimed')
+
+
+def plain_dropped(events, returns_node, local):
+    """Nodes whose last reference went away through `Cudd_Deref` / `cuddDeref` and that were not
+    handed on (returned, wrapped, stored) before the path ended.  Reported apart from the balance."""
+    if not any(e[0] == 'deref' and e[2] in PLAIN_DEREFS for e in events):
+        return []
+    fin = []
+    run_path(events, returns_node, local, False, fin)
+    if not fin:
+        return []
+    return [x for x, n in sorted(fin[0][0].items()) if n['plain_dropped']]
+
+
+def end_label(events):
+    if events and events[-1][0] in ('raise', 'raiseIn'):
+        return events[-1][1]
+    return 'return'
+
+
+def reviewed_plain_drops():
+    """`reviewedPlainDrops` of lean/DD/CWrapReviewed.lean: {(back end, function, end label or '')}."""
+    import re
+    text = _reviewed_text()
+    a = text.index('def reviewedPlainDrops')
+    b = text.index(']', text.index(':=', a))
+    return {(m.group(1), m.group(2), m.group(3))
+            for m in re.finditer(r'\(\.(\w+), "([^"]*)", "([^"]*)"\)', text[a:b])}
 
 
 def exit_summary(events, returns_node, local):
@@ -600,6 +656,22 @@ def field_path_problem(role, evs):
         return '__dealloc__ gives nothing back on a path where the counter is not known to be 0'
     if role == 'handleInit' and not raises and not (f['lo'] == net and f['hi'] == net):
         return 'after init the counter is not the number of references taken'
+    return None
+
+
+def deref_kind_problem(tag, m):
+    """None or (path index, event index, reason): every dereference uses a function of this back end;
+    `__dealloc__` gives the reference of the handle back with the one that reclaims the node."""
+    for i, (evs, _n) in enumerate(m['paths']):
+        for k, e in enumerate(evs):
+            if e[0] in ('deref', 'derefAll', 'derefNonNull'):
+                fn = e[2]
+                if fn not in ALLOWED_DEREFS[tag]:
+                    return (i, k, f'{fn} is not a dereference function of this back end '
+                                  '(a BDD function on a ZDD node, or the other way round)')
+                if m['role'] == 'handleDealloc' and fn not in DISPOSAL_DEREFS[tag]:
+                    return (i, k, f'__dealloc__ gives the reference back with {fn}, which does not reclaim '
+                                  'the node (its children are never released)')
     return None
 
 
@@ -856,6 +928,8 @@ def check_C19(ctx):
     dead_asserts = []       # `cuddRef(x); if x.ref <= 0: raise AssertionError`: cannot fire; would leak if it did
     exc_leaks = []          # exits through exceptions from callees that still own references (reviewed list)
     n_exceptional = 0
+    plain_drops = []        # nodes released with the non-recursive dereference and dropped (reviewed list)
+    REVIEWED_PD = reviewed_plain_drops()
     KNOWN_ARRAY_LEAKS = known_array_leaks()
     KNOWN_EXC = known_exception_leaks()
     seen_exc = set()
@@ -869,6 +943,18 @@ def check_C19(ctx):
                 if m['role'] != 'plain':
                     continue
                 bad = run_path(evs, m['returns_node'], local, False)
+                pd = plain_dropped(evs, m['returns_node'], local)
+                if pd:
+                    lab = end_label(evs)
+                    plain_drops.append(dict(backend=tag, method=m['name'], line=m['line'], path=i, ends=lab,
+                                            node=_n.get(pd[0], str(pd[0]))))
+                    if (tag, m['name'], '') not in REVIEWED_PD and (tag, m['name'], lab) not in REVIEWED_PD:
+                        ctx.violation(
+                            f'{tag} {m["name"]} (line {m["line"]}): {PLAIN_DROP} (node `{_n.get(pd[0], pd[0])}`, '
+                            f'path ending in {lab})',
+                            dict(backend=tag, method=m['name'], line=m['line'], path=[list(e) for e in evs],
+                                 node=pd[0], names={str(a): b for a, b in _n.items()},
+                                 tags=dict(call=f'{tag}.{m["name"]}', symptom='plain-deref-dropped')))
                 if _exceptional(evs):
                     n_exceptional += 1
                     if bad is not None and bad[1] != ARRAY_LEAK:
@@ -915,7 +1001,7 @@ def check_C19(ctx):
                     if leak is not None:
                         dead_asserts.append(dict(backend=tag, method=m['name'], line=m['line'], path=i,
                                                  if_it_fired=leak[1]))
-            bad = method_problem(m, local, data['has_ref_field'][tag])
+            bad = method_problem(m, local, data['has_ref_field'][tag]) or deref_kind_problem(tag, m)
             if bad is not None:
                 i, k, why = bad
                 evs, names = m['paths'][i]
@@ -939,6 +1025,20 @@ def check_C19(ctx):
                                  path=[list(e) for e in evs], event=bad[0],
                                  tags=dict(call=f'{tag}.{m["name"]}', symptom='floating-node')))
                         break
+    # the named assumption about `decref(u, _direct=True)`: its callers are in dd/_copy.py only
+    for fname, line in data.get('direct_decref_users', []):
+        if fname != 'dd/_copy.py':
+            ctx.violation(
+                f'{fname} line {line}: `decref(…, _direct=True)` is called outside dd/_copy.py (the assumption '
+                'under which the counter `_ref` of the handle may stay unchanged was reviewed for that caller only)',
+                dict(file=fname, line=line, tags=dict(call='decref', symptom='direct-decref-user')))
+    # no code outside the functions touches the reference counts
+    for tag, rows in data.get('module_level_refs', {}).items():
+        for line, text in rows:
+            ctx.violation(
+                f'{tag} line {line}: code outside every function mentions a reference-count function: `{text}`',
+                dict(backend=tag, line=line, text=text,
+                     tags=dict(call=f'{tag}.<module>', symptom='module-level-ref-code')))
     # every definition of the files is accounted for; nothing but the test helpers is left out
     for tag in data['traces']:
         tokens, found, nested = data['def_tokens'][tag], data['nfuncs'][tag], data['nested_defs'][tag]
@@ -975,6 +1075,7 @@ def check_C19(ctx):
         operator_methods={tag: [q for q, _s, _o in rows] for tag, rows in data['operators'].items()},
         observations=dict(
             exits_through_exceptions_that_still_own_references=exc_leaks,
+            nodes_released_non_recursively_and_dropped=plain_drops,
             exceptional_exits_followed=n_exceptional,
             arrays_not_freed=array_leaks,
             assertions_that_cannot_fire_but_would_leak=dead_asserts),
